@@ -117,13 +117,13 @@ pub struct Selection {
     pub qas: Vec<QualityAssurance>,
 }
 
-fn pat_of_opt(o: &Optimization) -> Pat {
+pub fn pat_of_opt(o: &Optimization) -> Pat {
     Pat::O(opt::get_all_optimizations().iter().position(|x| x == o).unwrap())
 }
-fn pat_of_vuln(o: &Vulnerability) -> Pat {
+pub fn pat_of_vuln(o: &Vulnerability) -> Pat {
     Pat::V(vul::get_all_vulnerabilities().iter().position(|x| x == o).unwrap())
 }
-fn pat_of_qa(o: &QualityAssurance) -> Pat {
+pub fn pat_of_qa(o: &QualityAssurance) -> Pat {
     Pat::Q(qa::get_all_qa().iter().position(|x| x == o).unwrap())
 }
 
